@@ -306,6 +306,10 @@ fn rust_path(full: &str) -> String {
 }
 
 fn check_rust_attrs(s: &Schema) -> PResult {
+    check_rust_attrs_ex(s, &mut vec![])
+}
+
+fn check_rust_attrs_ex(s: &Schema, skipped: &mut Vec<String>) -> PResult {
     let attrs = match rust_attrs(RUST_FILE) {
         Ok(a) => a,
         Err(e) => inconclusive(&format!("cannot read {RUST_FILE}: {e}")),
@@ -315,6 +319,14 @@ fn check_rust_attrs(s: &Schema) -> PResult {
         let Some(rf) = attrs.get(&rp) else {
             return fail("C07/rust-binding-missing", format!("schema message {full} has no struct {rp} in ommx.v1.rs"));
         };
+        if rf.is_empty() && !m.fields.is_empty() {
+            // The struct exists but carries no #[prost] attribute at all: its Message impl is hand-written rather than
+            // derived. The textual comparison has nothing to read there; conformance of that message is decided by the
+            // dynamic checks (independent encoder -> T::decode -> by-name projection, and back), which do not care how
+            // the impl was produced. (A derived struct cannot lack a single attribute: it would not compile.)
+            skipped.push(full.clone());
+            continue;
+        }
         let mut oneofs: BTreeSet<&String> = BTreeSet::new();
         for f in &m.fields {
             if let Some(o) = &f.oneof {
@@ -483,7 +495,12 @@ impl Property for C07 {
             }
             1 => {
                 ctx.label("sweep=proto-vs-rust-attributes");
-                check_rust_attrs(proto)
+                let mut skipped = vec![];
+                let r = check_rust_attrs_ex(proto, &mut skipped);
+                for m in &skipped {
+                    ctx.label(format!("static-comparison-skipped(hand-written impl):{m}"));
+                }
+                r
             }
             2 => {
                 ctx.label("sweep=registry");
@@ -592,6 +609,31 @@ impl Property for C07 {
                 // best feasible for all constraints is sample 1 (the only one), for the remaining ones sample 2 (0.5 < 1.0, minimise)
                 if ss.best_feasible_unrelaxed_id().ok() != Some(1) || ss.best_feasible_id().ok() != Some(2) {
                     return fail("C07/legacy-sample-set/best", format!("1.6-layout SampleSet: best ids {:?} / {:?}, expected 2 / 1", ss.best_feasible_id().ok(), ss.best_feasible_unrelaxed_id().ok()));
+                }
+                // A SampleSet as releases BEFORE 1.6 wrote it: only field 4 (there were no removed constraints, so
+                // `feasible` is the feasibility for the remaining = all constraints). Asserted narrowly: the
+                // remaining-constraints view (accessor, feasible ids, best id) is that map. Nothing is asserted about the
+                // all-constraints accessors, get() or num_samples() on this layout (sample_set.proto documents 1.6 and
+                // 1.7 only).
+                ctx.label("sweep=pre-1.6-sample-set");
+                let mut objectives = DynMsg::new("ommx.v1.SampledValues");
+                objectives.f.insert("entries".into(), DV::List(vec![entry(1.0, &[1]), entry(0.5, &[2]), entry(0.25, &[3])]));
+                let mut d = DynMsg::new("ommx.v1.SampleSet");
+                d.f.insert("objectives".into(), DV::Msg(objectives));
+                d.f.insert("feasible".into(), mk_map(&remaining));
+                d.f.insert("sense".into(), DV::Enum(1));
+                let bytes = encode(proto, &d, &EncLayout::default(), 0);
+                let ss = match v1::SampleSet::decode(bytes.as_slice()) {
+                    Ok(s) => s,
+                    Err(e) => return fail("C07/pre-1.6-sample-set/decode", format!("pre-1.6 SampleSet rejected: {e}")),
+                };
+                let want: std::collections::HashMap<u64, bool> = remaining.iter().copied().collect();
+                if ss.feasible_relaxed() != &want {
+                    return fail("C07/pre-1.6-sample-set/feasibility-lost", format!("pre-1.6 SampleSet (only `feasible` = {want:?}): feasibility for the remaining constraints reads {:?}", ss.feasible_relaxed()));
+                }
+                let ids: Vec<u64> = ss.feasible_ids().into_iter().collect();
+                if ids != vec![1, 2] || ss.best_feasible_id().ok() != Some(2) {
+                    return fail("C07/pre-1.6-sample-set/best", format!("pre-1.6 SampleSet: feasible ids {ids:?} (expected [1, 2]), best feasible id {:?} (expected 2)", ss.best_feasible_id().ok()));
                 }
                 Ok(())
             }
